@@ -182,6 +182,23 @@ def _m(wb, cx):
     return True
 
 
+@db("values.blank_beside_all_row", "reject")
+def _m(wb, cx):
+    """a table with a filled-in row "All" (the fallback for populations without a row of their own) AND an explicit population row whose values are left blank:
+    the explicit row is what the model would use for that population, so its missing values must be reported"""
+    cands = [c for c in cx.tdves() if not set(cx.data.tdve[c].ts.keys()) & {"all", "All"}]
+    code = cx.pick(cands)
+    t = code and _table(wb, cx, code)
+    if not t or len(t[4]) < 2:
+        return False
+    ws, row, heads, years, rows = t
+    ws.cell(row=rows[0], column=1).value = cx.r.choice(["All", "all"])
+    for col in years + [heads.get("constant"), heads.get("assumption")]:
+        if col:
+            ws.cell(row=rows[-1], column=col).value = None
+    return True
+
+
 @db("units.wrong", "reject")
 def _m(wb, cx):
     code = cx.pick(cx.tdves())
